@@ -49,11 +49,27 @@ import errno
 import socket
 import select
 import operator
+import functools
 from functools import reduce
 from binascii import hexlify, unhexlify
 
 import logging
 log = logging.getLogger(__name__)
+
+
+def communication_error_is_none(method):
+    # A datagram that is lost, garbled or not sent completely while
+    # the local device is being activated means that activation did
+    # not succeed. The listen methods then return None, they do not
+    # raise communication errors.
+    @functools.wraps(method)
+    def wrapper(self, *args, **kwargs):
+        try:
+            return method(self, *args, **kwargs)
+        except nfc.clf.CommunicationError as error:
+            log.debug(error)
+            return None
+    return wrapper
 
 
 class Device(nfc.clf.device.Device):
@@ -213,6 +229,7 @@ class Device(nfc.clf.device.Device):
         info = "{device} does not support sense for active DEP Target"
         raise nfc.clf.UnsupportedTargetError(info.format(device=self))
 
+    @communication_error_is_none
     def listen_tta(self, target, timeout):
         self._create_socket()
 
@@ -298,6 +315,7 @@ class Device(nfc.clf.device.Device):
                     target.tt2_cmd = data[:]
                 return target
 
+    @communication_error_is_none
     def listen_ttb(self, target, timeout):
         self._create_socket()
 
@@ -331,6 +349,7 @@ class Device(nfc.clf.device.Device):
                                            sensb_res=target.sensb_res,
                                            tt4_cmd=data, _addr=addr)
 
+    @communication_error_is_none
     def listen_ttf(self, target, timeout):
         self._create_socket()
 
@@ -388,6 +407,7 @@ class Device(nfc.clf.device.Device):
                         target.atr_req = data[1:]
                         return target
 
+    @communication_error_is_none
     def listen_dep(self, target, timeout):
         self._create_socket()
 
